@@ -20,9 +20,11 @@ MANIFEST = {
             "CompRow_to_CompCol, copy and the permuted views equal their dense definitions; the binary64 instance of the "
             "same model is compared bit-for-bit with the C kernels on every run, the other precisions and the vendor "
             "flavour against the exact oracle within the standard rounding bound.",
-    "note": "Exact-arithmetic theorems are proved in full; the rounded (gamma_k) bounds are not proved in Coq "
-            "(kept as Definition ..._full) -- they are enforced as the executed oracle in exact rationals. Complex "
-            "kernels are tied by the oracle only (no bit-exact complex model).",
+    "note": "Exact-arithmetic theorems are proved in full; the rounded bounds are proved in the partial form "
+            "(c19_gemv_rounded_partial, c19_trsv_rounded_partial: gamma_k bounds with k = stored entries per row / "
+            "supernodal substitution length, standard model without underflow) and the tighter full statements are refuted "
+            "by witnesses; the same bounds are the executed oracle in exact rationals. Complex kernels are tied by the "
+            "oracle only (no bit-exact complex model).",
     "technique": "Coq proof about a generic-arithmetic Gallina model + vm_compute(binary64) bit-exact correspondence "
                  "with direct C calls + extracted exact-rational oracle",
 }
